@@ -51,7 +51,9 @@ Supply(m) ==
 PickExtra ==
   /\ ph = 1 /\ ph' = 2
   /\ \E oel \in BOOLEAN, ogas \in BOOLEAN, nep \in BOOLEAN, aux \in BOOLEAN, bcal \in BOOLEAN, dm \in {"consistent", "absent", "zero"},
-        chp \in {"no", "bio", "gas", "mixed"} :
+        chp \in {"no", "bio", "gas", "mixed"}, lsc \in BOOLEAN, oamb \in BOOLEAN :
+       \* the DHW heat pump's ambient heat may carry the low-SCOP tag; another service's heat pump may carry it too
+       /\ (lsc => mix.hp) /\ (oamb => ~ogas /\ ~bcal /\ chp = "no")
        /\ (aux => mix.el \/ mix.hp)
        \* a cogenerator whose electricity reaches the DHW electricity use: fed by a nearby fuel, a distant one, or both
        /\ (chp # "no" => (mix.el \/ mix.hp) /\ ~bcal /\ ~ogas)
@@ -59,9 +61,13 @@ PickExtra ==
        /\ (chp = "mixed" => mix.bio = "no" /\ ~mix.dbio /\ ~mix.red)
        \* the biomass boilers may also heat (another service of the same system, with its own declared output)
        /\ (bcal => mix.bio = "out" \/ mix.dbio)
-       /\ extra' = [oel |-> oel, ogas |-> ogas, nep |-> nep, aux |-> aux, bcal |-> bcal, chp |-> chp]
+       /\ extra' = [oel |-> oel, ogas |-> ogas, nep |-> nep, aux |-> aux, bcal |-> bcal, chp |-> chp, lsc |-> lsc, oamb |-> oamb]
        /\ demand' = dm
-       /\ comps' = Supply(mix)
+       /\ comps' = (IF lsc THEN [i \in 1..Len(Supply(mix)) |-> IF Supply(mix)[i].kind = "USED" /\ Supply(mix)[i].cr = "EAMBIENTE"
+                                                                THEN [Supply(mix)[i] EXCEPT !.cm = LowScopTag] ELSE Supply(mix)[i]]
+                     ELSE Supply(mix))
+            \o (IF oamb THEN <<[Used(12, "EAMBIENTE", "CAL", Const(50)) EXCEPT !.cm = LowScopTag], Prod(12, "EAMBIENTE", Const(50)),
+                                Used(12, "ELECTRICIDAD", "CAL", Const(20))>> ELSE <<>>)
             \o (IF oel THEN <<Used(8, "ELECTRICIDAD", "ILU", Const(60))>> ELSE <<>>)
             \o (IF ogas THEN <<Used(9, "GASNATURAL", "CAL", Const(70))>> ELSE <<>>)
             \o (IF bcal /\ mix.bio = "out" THEN <<Used(6, "BIOMASA", "CAL", Const(30)), Out(6, "CAL", Const(25))>> ELSE <<>>)
@@ -79,7 +85,7 @@ Spec == Init /\ [][Next]_vars
 
 Done == ph = 2
 Ev(C, k) == Evaluate(C, F, k, One, FALSE, n)
-A(C, k) == AcsFraction(C, F, Ev(C, k), Zero)
+A(C, k) == AcsFraction(C, F, Ev(C, k), LowScopOf(C))
 MapV(C, f(_)) == [i \in 1..Len(C) |-> [C[i] EXCEPT !.v = f(C[i].v)]]
 Without(C, P(_)) == SelectSeq(C, LAMBDA x : ~P(x))
 
@@ -100,18 +106,18 @@ Invariances ==
      /\ A(comps, One) = a                                                              \* k_exp
      /\ A(MapV(comps, LAMBDA v : [t \in 1..Len(v) |-> 3 * v[t]]), Zero) = a             \* scaling
      /\ A(Without(comps, LAMBDA x : IsUsed(x) /\ x.srv = "NEPB"), Zero) = a             \* non-EPB use
-     /\ A(Without(comps, LAMBDA x : IsUsed(x) /\ x.srv = "CAL"), Zero) = a              \* other services' non-electric use
+     /\ A(Without(comps, LAMBDA x : IsUsed(x) /\ x.srv = "CAL" /\ x.cr # "ELECTRICIDAD"), Zero) = a   \* other services' non-electric use
 \* closed forms of the canonical mixes without PV and without auxiliaries
 BioFrac == Norm(1003, 1037)
 DBioFrac == Norm(1028, 1113)
 ClosedForm ==
-  (Done /\ Computable /\ ~mix.pv /\ ~extra.aux /\ extra.chp = "no") =>
+  (Done /\ Computable /\ ~mix.pv /\ ~extra.aux /\ extra.chp = "no" /\ ~extra.lsc) =>
      A(comps, Zero).v = RDiv(RAdd(RAdd(R((IF mix.hp THEN 60 ELSE 0) + (IF mix.ts THEN 30 ELSE 0)), Norm(IF mix.red THEN 50 ELSE 0, 2)),
                                   RAdd(RMul(R(IF mix.bio # "no" THEN 80 ELSE 0), BioFrac), RMul(R(IF mix.dbio THEN 40 ELSE 0), DBioFrac))),
                              R(Delivered10(mix)))
 \* direct electric + PV, single DHW use of electricity: the PV used for DHW per step over the demand
 ClosedFormPv ==
-  (Done /\ Computable /\ mix.pv /\ mix.el /\ ~mix.hp /\ ~mix.ts /\ ~mix.gas /\ ~mix.red /\ mix.bio = "no" /\ ~mix.dbio /\ ~extra.aux /\ ~extra.oel /\ extra.chp = "no") =>
+  (Done /\ Computable /\ mix.pv /\ mix.el /\ ~mix.hp /\ ~mix.ts /\ ~mix.gas /\ ~mix.red /\ mix.bio = "no" /\ ~mix.dbio /\ ~extra.aux /\ ~extra.oel /\ extra.chp = "no" /\ ~extra.oamb) =>
      A(comps, Zero).v = RDiv(R(ISumSet(LAMBDA t : IMin(40, IF t = 1 THEN 30 ELSE 100), 1..n)), R(n * 40))
 
 Emit == Done => PrintT(<<"CASE", ToJson([src |-> [comps |-> comps], demand |-> demand])>>)
